@@ -11,8 +11,9 @@ pub const FUNCS: [&str; 8] = ["f", "g", "min", "sum", "foo", "h.k", "_f", "max"]
 pub const NUMS: [&str; 12] = [
     "1", "2", "3", "0", "3.5", "0.10", "12345678901234567890", "007", "10", "0.0000000000000000000000000001", "9223372036854775808", "9999999999999999999",
 ];
-pub const STRS: [&str; 12] = [
-    "'a'", "\"b c\"", "\"it's\"", "'say \"x\"'", "\"\"", "'é'", "\"(\"", "'a+b'", "\" ? : \"", "'x\ty\nz'", "\"]\"", "'not in'",
+// the last two end in a backslash: the language has no escapes, so the quote after it closes the literal
+pub const STRS: [&str; 14] = [
+    "'a'", "\"b c\"", "\"it's\"", "'say \"x\"'", "\"\"", "'é'", "\"(\"", "'a+b'", "\" ? : \"", "'x\ty\nz'", "\"]\"", "'not in'", "'C:\\'", "\"\\\"",
 ];
 pub const BOOLS: [&str; 4] = ["true", "false", "True", "False"];
 
